@@ -263,6 +263,80 @@ def chain_rule(ctx, col):
     col.check(ok, "R-CHAIN", tp.qualname, tp.loc(), "chaining takes the members' tree containers in order", "", "to_population differs", stmt="chain")
 
 
+def chain_by_value(ctx, col):
+    """R-CHAINVAL: ChainTrees.__getitem__ folded exactly for every layout of member sizes 0..2 (up to four members, empty members anywhere) and every valid index: the
+    element returned is the one at that position of the concatenation.  Independent of how the member is searched (loop, bisect, searchsorted)."""
+    import copy
+    from fractions import Fraction as Fr
+    from itertools import product
+    from ..vecfold import VecEval, Unsupported as Uns, OutOfRange as OutR, RaiseReached as RaiseR
+    repo = ctx.repo
+    col.rule("R-CHAINVAL", "ChainTrees.__getitem__ folded exactly for every layout of member sizes 0..2 with up to four members (empty members at the start, in the middle, at the end, "
+             "several in a row) and every index, negative ones included: the element returned is the one at that position of the concatenation", floor=1, exhaustive=True)
+    C = repo.get_class(f"{POP}.ChainTrees")
+    gi = C.lookup_method("__getitem__")
+    gidx = repo.get_def(f"{POP}._get_idx")
+    body = copy.deepcopy(gi.node.body)
+
+    class LenSelf(ast.NodeTransformer):
+        def visit_Call(self, n):
+            self.generic_visit(n)
+            if isinstance(n.func, ast.Name) and n.func.id == "len" and len(n.args) == 1 and isinstance(n.args[0], ast.Name) and n.args[0].id == "self":
+                return ast.copy_location(ast.Name(id="__len_self__", ctx=ast.Load()), n)
+            if isinstance(n.func, ast.Name) and n.func.id == "int" and len(n.args) == 1:
+                return n
+            return n
+    body = [LenSelf().visit(st) for st in body]
+    helpers = {m.name: m.node for m in C.methods.values() if not m.is_lambda and m.name not in ("__getitem__", "__init__")}
+    for d_ in repo.all_defs():
+        if d_.module is gi.module and d_.cls is None and d_.parent is None and not d_.is_lambda:
+            helpers.setdefault(d_.name, d_.node)
+    bad = und = None
+    n_w = 0
+    for k in (1, 2, 3, 4):
+        for sizes in product((0, 1, 2), repeat=k):
+            total = sum(sizes)
+            if total == 0:
+                continue
+            trees = tuple(tuple(Fr(100 * (m + 1) + o) for o in range(sz)) for m, sz in enumerate(sizes))
+            flat = [x for t in trees for x in t]
+            cum = [0]
+            for sz in sizes:
+                cum.append(cum[-1] + sz)
+            for key in list(range(total)) + [-1, -total]:
+                env = {"self.trees": trees, "self.cumsum": tuple(Fr(c) for c in cum), "key": Fr(key), "__len_self__": Fr(total)}
+                try:
+                    got = VecEval(env, methods=helpers).run(body)
+                except (OutR, RaiseR) as x:
+                    bad = (sizes, key, f"an error ({x})", flat[key])
+                    break
+                except Uns as x:
+                    und = f"{type(x).__name__}: {x}"
+                    break
+                except Exception as x:  # noqa: BLE001
+                    und = f"{type(x).__name__}: {x}"
+                    break
+                n_w += 1
+                if got != flat[key]:
+                    bad = (sizes, key, got, flat[key])
+                    break
+            if bad or und:
+                break
+        if bad or und:
+            break
+    what = "chain[k] is the k-th element of the concatenation"
+    if bad is not None:
+        sizes, key, got, want = bad
+        col.bad("R-CHAINVAL", gi.qualname, gi.loc(), what,
+                f"members of sizes {list(sizes)}, index {key}: the method returns " + (f"element {int(got) % 100} of member {int(got) // 100 - 1}" if isinstance(got, Fr) else str(got)) +
+                f", the concatenation has element {int(want) % 100} of member {int(want) // 100 - 1} there "
+                f"(an empty member before a non-empty one, or a boundary index, is resolved to the wrong member)", stmt="chainval", definite=True)
+    elif und is not None:
+        col.unresolved("R-CHAINVAL", gi.qualname, gi.loc(), what, f"cannot fold the lookup exactly: {und}", stmt="chainval")
+    else:
+        col.ok("R-CHAINVAL", gi.qualname, gi.loc(), what, f"{n_w} (layout, index) pairs folded", stmt="chainval")
+
+
 # ------------------------------------------------------------------ R-ROWS / map
 def rows_rule(ctx, col):
     repo = ctx.repo
@@ -354,6 +428,7 @@ def run(ctx, col, tier):
     col.guard(iter_rule, ctx, col)
     col.guard(cache_rule, ctx, col)
     col.guard(chain_rule, ctx, col)
+    col.guard(chain_by_value, ctx, col)
     col.guard(rows_rule, ctx, col)
     col.guard(anchored, ctx, col)
     col.guard(recognisers, ctx, col)
